@@ -169,6 +169,9 @@ pub fn prop(c: &Case, log: &mut CaseLog) -> Verdict {
         let sc = Scratch::new("c10");
         sc.write_project(&b.project, toml);
         let run = run_mos(&sc.dir, &["--no-color", "-e", "Short", "build"]);
+        if run.timed_out {
+            return Verdict::Discard("mos killed by the watchdog".into());
+        }
         let files: BTreeMap<String, Vec<u8>> = sc.snapshot("target").into_iter().map(|(k, v)| (k, v.0)).collect();
         // absolute scratch paths differ between runs: normalise
         let stdout = run.stdout.replace(&sc.dir.to_string_lossy().to_string(), "<dir>");
